@@ -617,11 +617,12 @@ def list_method(it, lst: ListObj, name):
             xv = it.to_val(x)
             if not it.ctx.branch(z3.Contains(lst.term, z3.Unit(xv)), "list.remove: present"):
                 raise PyExc(it.make_exc("ValueError", "list.remove(x): x not in list"))
-            pre = it.ctx.fresh("pre", "seq")
-            post = it.ctx.fresh("post", "seq")
-            it.ctx.assume(z3.And(lst.term == z3.Concat(pre.t, z3.Unit(xv), post.t),
-                                 z3.Not(z3.Contains(pre.t, z3.Unit(xv)))))
-            lst.term = z3.Concat(pre.t, post.t)
+            # removal of the first occurrence as a deterministic (uninterpreted) function of the list
+            # and the item, so two removals of the same item from the same list are the same term
+            f = z3.Function("seq_remove_first", smt.SeqVal, smt.Val, smt.SeqVal)
+            r = f(lst.term, xv)
+            it.ctx.assume(z3.Length(r) == z3.Length(lst.term) - 1)
+            lst.term = r
             return None
         for i, y in enumerate(lst.items):
             e = _eq(it, y, x)
